@@ -70,7 +70,7 @@ def run(pid, tier, replay=None):
     rr = vlib.run_harness([exe, "random", str(ck.seed), str(nh), str(no), sc.path("rnd"), "14"], timeout=1800)
     mrr = re.search(r"^SUMMARY (\{.*\})$", rr.stdout or "", re.M)
     if rr.returncode != 0 or not mrr:
-        if rr.returncode in (97, 98, 99, -6, -11) or "Sanitizer" in (rr.stderr or ""):
+        if rr.returncode in (96, 97, 98, 99, -6, -11) or "Sanitizer" in (rr.stderr or ""):
             ck.violation("crash:str:random-history", {"what": "sanitizer abort during a long random string history", "stderr": (rr.stderr or "")[-1500:], "stdout": (rr.stdout or "")[-600:]})
         else:
             raise Broken("random string history failed rc=%s: %s" % (rr.returncode, (rr.stderr or "")[-800:]))
